@@ -176,4 +176,147 @@ theorem accepts_of_prefix (ops : List MainOp) (ig : List Threads.Msg) (n : Threa
   | none => simp [h0] at h
   | some pc => exact ⟨pc, rfl⟩
 
+/-! ### what the main thread does along a schedule of the model -/
+
+/-- the operation the main thread performs when the model takes action `a` in state `s` (`none`: not a step of main) -/
+def mainOpOf (s : State) : Action → Option MainOp
+  | .main =>
+    match s.m with
+    | .loop => s.qM.head?.map .recv
+    | .bcastP => some (.abort .writer)
+    | .bcastW => some (.abort .poller)
+    | .joinP => some (.join .poller)
+    | .joinW => some (.join .writer)
+    | _ => none
+  | .mainAbort w => if s.m = .bcast0 then some (.abort w) else none
+  | _ => none
+
+/-- main's operations along a schedule -/
+def mainTrace : State → List Action → List MainOp
+  | _, [] => []
+  | s, a :: rest =>
+    match step s a with
+    | some s' => (mainOpOf s a).toList ++ mainTrace s' rest
+    | none => []
+
+theorem step_mainOp {s s' : State} {a : Action} (h : step s a = some s') :
+    mainNexts s.m (mainOpOf s a).toList = some s'.m := by
+  obtain ⟨m, p, w, qM, qP, qW, rxP, rxW⟩ := s
+  cases a with
+  | main =>
+    cases m <;> simp only [step, stepMain, mainOpOf] at h ⊢
+    · cases qM with
+      | nil => simp at h
+      | cons x rest =>
+        simp only [Option.some.injEq] at h
+        subst h
+        simp [mainNexts, mainNext]
+    · simp at h
+    · simp only [Option.some.injEq] at h; subst h; simp [mainNexts, mainNext]
+    · simp only [Option.some.injEq] at h; subst h; simp [mainNexts, mainNext]
+    · split at h
+      · simp only [Option.some.injEq] at h; subst h; simp [mainNexts, mainNext]
+      · simp at h
+    · split at h
+      · simp only [Option.some.injEq] at h; subst h; simp [mainNexts, mainNext]
+      · simp at h
+    · simp at h
+  | mainAbort x =>
+    cases x <;> simp only [step, mainOpOf] at h ⊢ <;> split at h <;> simp only [Option.some.injEq, reduceCtorEq] at h
+    all_goals (subst h; rename_i hm; have hm' : m = .bcast0 := hm; subst hm'; simp [mainNexts, mainNext])
+  | poller =>
+    have hm : s'.m = m := by
+      simp only [step, stepPoller] at h
+      cases p <;> simp only [] at h <;> (try split at h) <;> (try simp only [Option.some.injEq, reduceCtorEq] at h) <;>
+        (try (subst h; rfl))
+    simp [mainOpOf, mainNexts, hm]
+  | pollerTimeout => simp only [step] at h; split at h <;> simp at h; subst h; simp [mainOpOf, mainNexts]
+  | pollerClockFail => simp only [step] at h; split at h <;> simp at h; subst h; simp [mainOpOf, mainNexts]
+  | pollerDie k => simp only [step] at h; split at h <;> simp at h; subst h; simp [mainOpOf, mainNexts]
+  | writer =>
+    have hm : s'.m = m := by
+      simp only [step, stepWriter] at h
+      cases w <;> simp only [] at h <;> (try split at h) <;> (try simp only [Option.some.injEq, reduceCtorEq] at h) <;>
+        (try (subst h; rfl))
+    simp [mainOpOf, mainNexts, hm]
+  | writerDie k => simp only [step] at h; split at h <;> simp at h; subst h; simp [mainOpOf, mainNexts]
+
+/-- along every schedule the operations of main are accepted by its control flow, and lead to its current pc -/
+theorem run_mainTrace (s s' : State) (acts : List Action) (h : Threads.run s acts = some s') :
+    mainNexts s.m (mainTrace s acts) = some s'.m := by
+  induction acts generalizing s with
+  | nil =>
+    simp only [Threads.run, Option.some.injEq] at h
+    subst h
+    rfl
+  | cons a rest ih =>
+    simp only [Threads.run] at h
+    cases hs : step s a with
+    | none => simp [hs] at h
+    | some s1 =>
+      simp only [hs] at h
+      simp only [mainTrace, hs, mainNexts_append, step_mainOp hs, Option.bind_some]
+      exact ih s1 h
+
+/-! ### every model message is the abstraction of a Rust message -/
+
+def reprMsg : Threads.Msg → RMsg
+  | .data => .noData .chrony
+  | .abort => .abort
+  | .notice .poller .terminate => .terminate .poller
+  | .notice .poller .panic => .panic .poller
+  | .notice .writer .terminate => .terminate .writer
+  | .notice .writer .panic => .panic .writer
+
+theorem reprMsg_abs (x : Threads.Msg) : (reprMsg x).abs = some x := by
+  cases x with
+  | data => rfl
+  | abort => rfl
+  | notice w k => cases w <;> cases k <;> rfl
+
+theorem reprMsg_isNotice (x : Threads.Msg) : (reprMsg x).isNotice = x.isNotice := by
+  cases x with
+  | data => rfl
+  | abort => rfl
+  | notice w k => cases w <;> cases k <;> rfl
+
+theorem range_map_getD {α : Type} (l : List α) (d : α) : (List.range l.length).map (fun j => l.getD j d) = l := by
+  induction l with
+  | nil => rfl
+  | cons a l ih =>
+    rw [List.length_cons, List.range_succ_eq_map, List.map_cons, List.map_map]
+    simp only [List.getD_cons_zero, Function.comp_def, List.getD_cons_succ]
+    rw [ih]
+
+theorem getD_mem {α : Type} (l : List α) (d : α) (i : Nat) (h : i < l.length) : l.getD i d ∈ l := by
+  induction l generalizing i with
+  | nil => simp at h
+  | cons a l ih =>
+    cases i with
+    | zero => simp
+    | succ j =>
+      simp only [List.length_cons, Nat.add_lt_add_iff_right] at h
+      simp only [List.getD_cons_succ, List.mem_cons]
+      exact Or.inr (ih j h)
+
+theorem filterMap_some {α β : Type} (g : α → β) (l : List α) :
+    l.filterMap (fun a => some (g a)) = l.map g := by
+  induction l with
+  | nil => rfl
+  | cons a l ih => simp [List.filterMap_cons, ih]
+
+theorem ignoredOf_repr (ig : List Threads.Msg) :
+    ignoredOf ig.length (fun j => reprMsg (ig.getD j .data)) = ig := by
+  simp only [ignoredOf, reprMsg_abs]
+  rw [filterMap_some]
+  exact range_map_getD ig .data
+
+/-- a box whose first worker is `f` -/
+def orderOf : Worker → List Thread
+  | .poller => [.poller, .main, .writer]
+  | .writer => [.writer, .main, .poller]
+
+theorem orderOf_isOrder (f : Worker) : isOrder (orderOf f) = true := by cases f <;> decide
+theorem orderOf_first (f : Worker) : firstWorker (orderOf f) = f := by cases f <;> rfl
+
 end ClockBound.OnCodeProof
